@@ -2,6 +2,7 @@
 
 from __future__ import annotations
 
+import glob
 import re
 from pathlib import Path
 from warnings import warn
@@ -63,7 +64,7 @@ class ProjectResultRegistry(ProjectRegistry):
         run_name_pattern = re.compile(rf"{re.escape(base_name)}_run_\d{{4}}")
         return sorted(
             path
-            for path in self.directory.glob(f"{base_name}_run_*")
+            for path in self.directory.glob(f"{glob.escape(base_name)}_run_*")
             if run_name_pattern.fullmatch(path.name) is not None
         )
 
@@ -102,7 +103,7 @@ class ProjectResultRegistry(ProjectRegistry):
                     stacklevel=3,
                 )
             previous_result_paths = self.previous_result_paths(name) or [Path(name)]
-            name = previous_result_paths[-1].stem
+            name = previous_result_paths[-1].name
         path = self._directory / name
         if self.is_item(path):
             return path
@@ -127,7 +128,7 @@ class ProjectResultRegistry(ProjectRegistry):
         previous_results = self.previous_result_paths(base_name)
         if not previous_results:
             return f"{base_name}_run_0000"
-        latest_result_run_nr = int(previous_results[-1].stem.replace(f"{base_name}_run_", ""))
+        latest_result_run_nr = int(previous_results[-1].name.replace(f"{base_name}_run_", ""))
         return f"{base_name}_run_{latest_result_run_nr+1:04}"
 
     def save(self, name: str, result: Result):
